@@ -275,6 +275,27 @@ def make_octet_int(octets):
     return val
 
 
+def skolem_octets(v, n):
+    """n fresh octet variables o_0..o_{n-1} (0..255) with v == sum o_i * 256^(n-1-i); the decomposition
+    is unique for 0 <= v < 256^n, so nothing is lost and z3 sees a linear constraint instead of div/mod.
+    Returns a list of SymbolicInt, or None when v is concrete."""
+    with NoTracing():
+        if not isinstance(v, SymbolicInt):
+            return None
+        known = octets_of(v)
+        if known is not None and len(known) == n:
+            return list(known)
+        space = context_statespace()
+        names = [z3.Int('vfsk%d_%s' % (i, space.uniq())) for i in range(n)]
+        tot = z3.IntVal(0)
+        for o in names:
+            space.add(z3.And(o >= 0, o < 256))
+            tot = tot * 256 + o
+        space.add(v.var == tot)
+        STATS['skolem'] = STATS.get('skolem', 0) + 1
+        return [SymbolicInt(o) for o in names]
+
+
 def _my_from_bytes(b, byteorder='big', *, signed=False):
     r = int.from_bytes(b, byteorder, signed=signed)
     with NoTracing():
@@ -690,6 +711,16 @@ def _my_struct_unpack(fmt, buffer):
                 plan = (ps[0], ps[1].x, ps[2], _STRUCT_SIZES[ps[2]])
     if plan is None:
         with NoTracing():
+            exact = None
+            if type(fmt) is str and isinstance(buffer, BytesLike):
+                try:
+                    exact = _struct.calcsize(fmt)
+                except Exception:
+                    exact = None
+        if exact is not None and len(buffer) != exact:
+            # CrossHair's struct model only rejects buffers that are too short; CPython requires the exact size
+            raise _struct.error('unpack requires a buffer of %d bytes' % exact)
+        with NoTracing():
             whole = None
             if type(fmt) is str and isinstance(buffer, BytesLike):
                 f = fmt[1:] if fmt[:1] in '!><=@' else fmt
@@ -728,6 +759,15 @@ def _my_inet_ntop(family, data):
             STATS['inet6_lazy'] = STATS.get('inet6_lazy', 0) + 1
             return rope.Rope([rope.Lazy(lambda: _socket.inet_ntop(family, bytes(deep_realize(data))))])
     return _socket.inet_ntop(family, deep_realize(data))
+
+
+def _my_bytearray_fromhex(s):
+    # CrossHair 0.0.110's SymbolicByteArray.fromhex trips an internal assertion; hex text is concrete in yabgp's
+    # encoders (hex(int(text))[2:]), a symbolic one is realised
+    with NoTracing():
+        if isinstance(s, CrossHairValue):
+            s = deep_realize(s)
+        return bytearray.fromhex(s)
 
 
 def _my_ord(c):
@@ -796,6 +836,7 @@ _LAYER = {
     bytes.decode: _my_bytes_decode,
     ord: _my_ord,
     str: _my_str,
+    bytearray.fromhex: _my_bytearray_fromhex,
 }
 try:
     import struct as _struct_mod
